@@ -142,6 +142,9 @@ func (H) Decode(prop string, raw json.RawMessage) (any, error) {
 
 func (H) Tune(prop string, plan any, cfg *simrt.Config) {
 	cfg.MaxSteps = 400000
+	// C13: "no message crashes the process" includes the runtime's abort on overlapping map accesses, which cannot
+	// happen inside the simulation: predict it from happens-before instead
+	cfg.Race = prop == "C13"
 	cfg.MaxAdvIdx = 1 // expiry times are compared with the model: only millisecond clock steps while a request is in flight
 	if cfg.PAdvance > 0.01 {
 		cfg.PAdvance = 0.01
